@@ -15,7 +15,13 @@ import subprocess
 import sys
 from pathlib import Path
 
+import os
+
 V = Path(__file__).resolve().parent.parent
+# EVAL_REPO: the FORD tree the patches are applied to and the checks run against (default /repo); with a
+# scratch copy of /verif and a scratch worktree of /repo several evaluations can run side by side
+REPO = os.environ.get("EVAL_REPO", "/repo")
+ENV = dict(os.environ, FORD_VERIF_REPO=REPO)
 args = [a for a in sys.argv[1:] if not a.startswith("--")]
 also = []
 for a in sys.argv[1:]:
@@ -25,8 +31,8 @@ claimed = {c["property_id"] for c in json.loads((V / "MANIFEST.json").read_text(
 seeds = sorted(p.parent for p in (V / "seeded").glob("*/patch.diff"))
 if args:
     seeds = [s for s in seeds if s.name in args]
-if subprocess.run("git status --porcelain", shell=True, cwd="/repo", capture_output=True, text=True).stdout.strip():
-    sys.exit("/repo is not clean")
+if subprocess.run("git status --porcelain", shell=True, cwd=REPO, capture_output=True, text=True).stdout.strip():
+    sys.exit(REPO + " is not clean")
 for s in seeds:
     meta = json.loads((s / "meta.json").read_text())
     prop = meta["breaks_property"]
@@ -34,7 +40,7 @@ for s in seeds:
     if not targets:
         print(s.name, "property not claimed yet")
         continue
-    r = subprocess.run(["git", "apply", str(s / "patch.diff")], cwd="/repo", capture_output=True, text=True)
+    r = subprocess.run(["git", "apply", str(s / "patch.diff")], cwd=REPO, capture_output=True, text=True)
     if r.returncode != 0:
         print(s.name, "patch does not apply to the current /repo:", r.stderr.strip()[:100])
         meta.setdefault("check_results", {})[prop] = {"outcome": "patch-does-not-apply"}
@@ -42,11 +48,11 @@ for s in seeds:
         continue
     try:
         for t in targets:
-            p = subprocess.run(["./check", t, "--tier", "quick"], cwd=V, capture_output=True, text=True, timeout=1800)
+            p = subprocess.run(["./check", t, "--tier", "quick"], cwd=V, capture_output=True, text=True, timeout=1800, env=ENV)
             line = next((l for l in p.stdout.splitlines() if l.startswith("VIOLATION")), "")
             outcome = {0: "missed", 2: "infra"}.get(p.returncode, "tie-only" if "no-failing-input-found" in line else "failing-input")
             meta.setdefault("check_results", {})[t] = {"outcome": outcome, "exit": p.returncode, "line": line.replace(str(V) + "/", "")}
             print(s.name, t, outcome)
     finally:
-        subprocess.run("git checkout -- . && git clean -fdq", shell=True, cwd="/repo")
+        subprocess.run("git checkout -- . && git clean -fdq", shell=True, cwd=REPO)
     (s / "meta.json").write_text(json.dumps(meta, indent=1))
